@@ -662,43 +662,46 @@ Qed.
    What the strict parser returns is canonical, and its canonical encoding is what it consumed
    ================================================================================================ *)
 Lemma parse_canon f :
-  (forall b v r, parse_value_fuel f false b = Some (v, r) -> canonb v = true) /\
-  (forall b l r, parse_list_fuel f false b = Some (l, r) -> forallb canonb l = true) /\
-  (forall last b l r, parse_dict_fuel f false last b = Some (l, r) ->
+  (forall d b v r, parse_value_fuel f d b = Some (v, r) -> canonb v = true) /\
+  (forall d b l r, parse_list_fuel f d b = Some (l, r) -> forallb canonb l = true) /\
+  (forall d last b l r, parse_dict_fuel f d last b = Some (l, r) ->
      keys_asc last (map fst l) = true /\ forallb (fun kv => str_ok (fst kv) && canonb (snd kv)) l = true).
 Proof.
   induction f as [|f (IHv & IHl & IHd)].
   - repeat split; intros; discriminate.
   - split; [|split].
-    + intros b v r. rewrite pv_S. destruct b as [|c r0]; [discriminate|].
+    + intros d b v r. rewrite pv_S. destruct b as [|c r0]; [discriminate|].
       destruct (byte_eqb c ch_i).
-      { destruct (read_until ch_e r0) as [[txt r']|]; [|discriminate].
+      { destruct d; [discriminate|]. destruct (read_until ch_e r0) as [[txt r']|]; [|discriminate].
         destruct (int_text_any txt); [|discriminate]. intros [= <- <-]. reflexivity. }
       destruct (byte_eqb c ch_l).
-      { destruct (parse_list_fuel f false r0) as [[l r']|] eqn:E; [|discriminate]. intros [= <- <-].
-        exact (IHl _ _ _ E). }
+      { destruct (parse_list_fuel f d r0) as [[l r']|] eqn:E; [|discriminate]. intros [= <- <-].
+        exact (IHl _ _ _ _ E). }
       destruct (byte_eqb c ch_d).
-      { destruct (parse_dict_fuel f false None r0) as [[l r']|] eqn:E; [|discriminate]. intros [= <- <-].
-        destruct (IHd _ _ _ _ E) as (K & V). cbn [canonb]. rewrite K, V. reflexivity. }
-      destruct (is_digit c); [|discriminate].
+      { destruct (parse_dict_fuel f d None r0) as [[l r']|] eqn:E; [|discriminate]. intros [= <- <-].
+        destruct (IHd _ _ _ _ _ E) as (K & V). cbn [canonb]. rewrite K, V. reflexivity. }
+      destruct (is_digit c); [|discriminate]. destruct d; [discriminate|].
       destruct (parse_str_tok (c :: r0)) as [[s r']|] eqn:T; [|discriminate]. intros [= <- <-].
       destruct (parse_str_tok_spec _ _ _ T) as (_ & _ & _ & Hs). exact Hs.
-    + intros b l r. rewrite pl_S. destruct b as [|c r0]; [discriminate|].
+    + intros d b l r. rewrite pl_S. destruct b as [|c r0]; [discriminate|].
       destruct (byte_eqb c ch_e); [intros [= <- <-]; reflexivity|].
-      destruct (parse_value_fuel f false (c :: r0)) as [[v b1]|] eqn:E; [|discriminate].
-      destruct (parse_list_fuel f false b1) as [[l' b2]|] eqn:E2; [|discriminate]. intros [= <- <-].
-      cbn [forallb]. rewrite (IHv _ _ _ E), (IHl _ _ _ E2). reflexivity.
-    + intros last b l r. rewrite pd_S. destruct b as [|c r0]; [discriminate|].
+      destruct (parse_value_fuel f d (c :: r0)) as [[v b1]|] eqn:E; [|discriminate].
+      destruct (parse_list_fuel f d b1) as [[l' b2]|] eqn:E2; [|discriminate]. intros [= <- <-].
+      cbn [forallb]. rewrite (IHv _ _ _ _ E), (IHl _ _ _ _ E2). reflexivity.
+    + intros d last b l r. rewrite pd_S. destruct b as [|c r0]; [discriminate|].
       destruct (byte_eqb c ch_e); [intros [= <- <-]; split; reflexivity|].
-      destruct (is_digit c); [|discriminate].
+      destruct (is_digit c); [|discriminate]. destruct d; [discriminate|].
       destruct (parse_str_tok (c :: r0)) as [[k b1]|] eqn:T; [|discriminate].
       destruct (key_after last k) eqn:K; [|discriminate].
       destruct (parse_value_fuel f false b1) as [[v b2]|] eqn:E; [|discriminate].
       destruct (parse_dict_fuel f false (Some k) b2) as [[dd b3]|] eqn:E2; [|discriminate]. intros [= <- <-].
-      destruct (IHd _ _ _ _ E2) as (K2 & V2).
+      destruct (IHd _ _ _ _ _ E2) as (K2 & V2).
       destruct (parse_str_tok_spec _ _ _ T) as (_ & _ & _ & Hs).
-      cbn [map fst snd keys_asc forallb]. rewrite K, K2, Hs, (IHv _ _ _ E), V2. split; reflexivity.
+      cbn [map fst snd keys_asc forallb]. rewrite K, K2, Hs, (IHv _ _ _ _ E), V2. split; reflexivity.
 Qed.
+
+Theorem parse_value_d_canon d b v r : parse_value_d d b = Some (v, r) -> canonb v = true.
+Proof. apply (proj1 (parse_canon _)). Qed.
 
 Theorem parse_value_canon b v r : parse_value b = Some (v, r) -> canonb v = true.
 Proof. apply (proj1 (parse_canon _)). Qed.
